@@ -25,7 +25,7 @@ from ..selftest import Mutant
 from . import kinds_driver
 
 PROP = "C07"
-TECHNIQUE = "static analysis: rank-domain abstract interpretation of the storage backends + CFG dominance of key normalisation + reaching-definition classification of indexed elements + interface conformance table + two-sided rank comparison rule"
+TECHNIQUE = "static analysis: rank-domain abstract interpretation of the storage backends + CFG dominance of key normalisation + reaching-definition classification of indexed elements + interface conformance table + two-sided rank comparison rule + raw-key hand-off rule (callee re-normalises) + shape-from-key rule (no axis-less squeeze, no value-inferred object arrays)"
 SA = "pipefunc.map._storage_array"
 EXPLANATION = (
     "Static analysis of the storage backends: the rank-domain type system of sa/kinds.py over _base.py, _file.py and "
@@ -300,6 +300,9 @@ def check(ctx: Ctx) -> None:
 
 B, F, D = "pipefunc/map/_storage_array/_base.py", "pipefunc/map/_storage_array/_file.py", "pipefunc/map/_storage_array/_dict.py"
 MUTANTS = [
+    Mutant("axisless-squeeze", "pipefunc/map/_storage_array/_dict.py", "            return data.reshape(new_shape)\n", "            return data.squeeze()\n", ("C07.5-siblings",), why="round-4 seed C01/10"),
+    Mutant("object-array-from-values", "pipefunc/map/_storage_array/_file.py", "            sliced_array: np.ndarray = np.empty(len(sliced_data), dtype=object)\n            sliced_array[:] = sliced_data\n", "            sliced_array: np.ndarray = np.array(sliced_data, dtype=object)\n", ("C07.5-siblings",), why="round-4 seed C07/11"),
+    Mutant("slice-indices-trusts-raw-key", "pipefunc/map/_storage_array/_file.py", "        normalized_key = self._normalize_key(key, for_dump=for_dump)\n", "        normalized_key = key if isinstance(key, tuple) else (key,)\n", ("C07.2-normaliser",), why="round-4 seed C07/10"),
     Mutant("normalize-key-original-F01", B, "    key_mask = (True,) * expected_rank if for_dump else shape_mask\n", "    key_mask = shape_mask\n", ("C07.1-rank-domain",), why="original F01"),
     Mutant("slice-indices-original-F01", F, "        key_mask = (True,) * len(normalized_key) if for_dump else self.shape_mask\n", "        key_mask = self.shape_mask\n", ("C07.1-rank-domain",), why="original F01"),
     Mutant("bound-against-wrong-axis", B, "        if mask:\n            axis_size = shape[shape_index]\n            shape_index += 1\n        else:\n            axis_size = internal_shape[internal_shape_index]\n            internal_shape_index += 1\n",
